@@ -268,22 +268,32 @@ def coqc(path, outdir, extra_q=(), timeout=900):
 
 
 def check_props(ctx, prop=None):
-    """Re-check Props/<prop>.v (property theorems + Print Assumptions) against the compiled
+    """Re-check Props/<prop>*.v (property theorems + Print Assumptions) against the compiled
     development.  Each Theorem is one obligation."""
+    import glob as _glob
     prop = prop or ctx.prop
-    src = os.path.join(COQ, "Props", prop + ".v")
-    txt = strip_coq_comments(open(src).read())
-    n_thm = len(re.findall(r"^\s*(Theorem|Corollary)\s", txt, re.M))
-    ctx.obligations += n_thm
+    srcs = sorted(_glob.glob(os.path.join(COQ, "Props", prop + "*.v")))
+    all_ok, outs, total = True, "", 0
     os.makedirs(ctx.gen, exist_ok=True)
-    dst = os.path.join(ctx.gen, "Props_%s.v" % prop)
-    shutil.copy(src, dst)
-    ok, out = coqc(dst, ctx.gen)
-    ctx.checker_cmds.append("coqc -Q coq JF coq/Props/%s.v" % prop)
-    if ok:
-        ctx.discharged += n_thm
-        ctx.assumptions_text += out
-    return ok, out, n_thm
+    for src in srcs:
+        txt = strip_coq_comments(open(src).read())
+        n_thm = len(re.findall(r"^\s*(Theorem|Corollary)\s", txt, re.M))
+        total += n_thm
+        ctx.obligations += n_thm
+        base = os.path.basename(src)
+        dst = os.path.join(ctx.gen, "Props_" + base)
+        shutil.copy(src, dst)
+        ok, out = coqc(dst, ctx.gen)
+        ctx.checker_cmds.append("coqc -Q coq JF coq/Props/%s" % base)
+        if ok:
+            ctx.discharged += n_thm
+            ctx.assumptions_text += out
+        else:
+            all_ok = False
+        outs += out
+    if not srcs:
+        return False, "no Props file for %s" % prop, 0
+    return all_ok, outs, total
 
 
 def summarize_assumptions(text):
